@@ -190,7 +190,14 @@ func extractZip(root string) (string, map[string]any, error) {
 		if !fileRe.MatchString(zb) || !strings.Contains(zb, "relPath, err := filepath.Rel(source, path)") {
 			return "", nil, fmt.Errorf("Zip: file entries of the walk not recognised")
 		}
-		zipWritesDirs = dirRe.MatchString(zb)
+		switch {
+		case dirRe.MatchString(zb):
+			zipWritesDirs = true
+		case strings.Contains(zb, "if info.IsDir() { return nil }"):
+			zipWritesDirs = false // directories are skipped altogether: the model's witness (an empty directory) is a failing input
+		default:
+			return "", nil, fmt.Errorf("Zip: directory entries of the walk not recognised")
+		}
 	}
 	lean := fmt.Sprintf("import GoUtils.Model.ZipPath\nimport GoUtils.Model.Unzip\nimport GoUtils.Model.Archive\nnamespace GoUtils.Generated.Zip\ndef ok : Bool := true\n"+
 		"def sanitise : GoUtils.ZipPath.SanitiseFacts := { joinsDestFirst := true, acceptsDestItself := true, rejectsDotDot := true, prefixWithSeparator := true, sanitiseBeforeMutation := %s, cleansDestination := %s }\n"+
